@@ -112,6 +112,28 @@ def gen_mixed_pf2(rng, pattern):
 
 
 # ----------------------------------------------------------------------------- TuckerTensor object methods
+class BrokenTie7(Exception):
+    pass
+
+
+def tucker_setitem_refreshes_from_source(module=None):
+    """does TuckerTensor.__setitem__ of the CURRENT source touch the cached attributes (assign self.shape / self.rank, or call a validator)?"""
+    import ast, inspect, textwrap
+    if module is None:
+        import tensorly.tucker_tensor as module
+    src = module if isinstance(module, str) else textwrap.dedent(inspect.getsource(module))
+    cls = [n for n in ast.walk(ast.parse(src)) if isinstance(n, ast.ClassDef) and n.name == "TuckerTensor"]
+    fn = [n for c in cls for n in c.body if isinstance(n, ast.FunctionDef) and n.name == "__setitem__"]
+    if len(fn) != 1:
+        raise BrokenTie7("TuckerTensor.__setitem__ not found")
+    for n in ast.walk(fn[0]):
+        if isinstance(n, ast.Attribute) and isinstance(n.value, ast.Name) and n.value.id == "self" and n.attr in ("shape", "rank") and isinstance(n.ctx, ast.Store):
+            return True
+        if isinstance(n, ast.Call) and isinstance(n.func, ast.Name) and "validate" in n.func.id:
+            return True
+    return False
+
+
 def pred_tucker_obj_normalize(inp):
     """obj.normalize() is in place: returns None, obj represents the same tensor with unit-norm factor columns, its shape / rank
     attributes describe what it holds, the arrays the caller passed in are untouched"""
@@ -363,6 +385,43 @@ def run_round7(chk, rng, judge, mult, emit):
                     chk.count(key=("tucker_copy", sh(facs), tuple(ls)))
                     if shares:
                         chk.finding("tensorly.tucker_tensor.TuckerTensor.tucker_copy", {"core": core, "fs": facs}, "tucker_copy shares memory with the tensor it copies", "tucker_copy")
+    # item assignment obj[1] = <another list>: only when the CURRENT source re-binds the attribute without refreshing shape / rank
+    # (the variant the model has); a __setitem__ that refreshes or validates is not compared (noted), one that cannot be found is a broken tie
+    try:
+        refreshes = tucker_setitem_refreshes_from_source()
+    except BrokenTie7 as e:
+        refreshes = None
+        chk.broken.append({"what": "source tie TuckerTensor.__setitem__ broken", "detail": str(e)})
+    chk.cov["tuckertensor_setitem"] = {False: "plain re-binding (model tucker_setitem_h)", True: "refreshes / validates: item-assignment cases not compared", None: "broken"}[refreshes]
+    for it in range((6 * mult) if refreshes is False else 0):
+        core, fs, feat = H.gen_tucker(rng)
+        N = len(fs)
+        k = rng.randrange(N)
+        extra_rows = np.concatenate([fs[k], fs[k][:1]], axis=0)            # one more row: another mode size, still a valid factor
+        extra_cols = np.concatenate([fs[k], fs[k][:, :1]], axis=1)         # one more column: no longer fits the core
+        arrs = list(fs) + [extra_rows, extra_cols]
+        ls = list(range(N))
+        for why, newls in (("other_rows", [N if j == k else j for j in range(N)]), ("other_cols", [N + 1 if j == k else j for j in range(N)]),
+                           ("fewer", ls[:-1]), ("same", list(ls))):
+            held = [np.array(a, copy=True) for a in arrs]
+            st, obj = call(lambda: TuckerTensor((core.copy(), [held[l] for l in ls])))
+            if st != "ok":
+                continue
+            def assign():
+                obj[1] = [held[l] for l in newls]
+                return obj
+            st, _ = call(assign)
+            chk.hist("tucker_obj", f"setitem:{why}:{st}")
+            if st == "ok":
+                vst, _ = call(_validate_tucker_tensor, obj)
+                try:
+                    lit = f"(Ok ({zobs(obj)}, {C.boolc(vst == 'ok')}))"
+                except Exception:  # noqa
+                    lit = "(Ok (([99999]%nat, (@nil nat), (mk (@nil nat) (@nil Z), (@nil (list (list Z))))), false))"
+            else:
+                lit = "Err"
+            emit(lambda: f"ZTkObjSet {ztens(core)} {zmats(arrs)} {C.nat_list(ls)} {C.nat_list(newls)} {lit}", ("TuckerTensor.__setitem__", sh(fs), why))
+            chk.count(key=("tucker_setitem", sh(fs), why), nontrivial=why != "same")
     for it in range(10 * mult):
         core, fs, feat = H.gen_tucker(rng, float_=True)
         held_c, held = core.copy(), H.cps(fs)
@@ -426,12 +485,14 @@ def run_round7(chk, rng, judge, mult, emit):
     # --- (F) svd_decompress and the caller's projection LIST (Model/TransformsPfHeap.v): lists naming one projection array for two slices,
     #     every result entry with a loading is a fresh array, the operand's list and arrays are untouched
     for it in range(8 * mult):
-        w, (A, B, Cm), Ps = H.gen_pf2_int(rng)
+        while True:
+            w, (A, B, Cm), Ps = H.gen_pf2_int(rng)
+            if len(Ps) >= 2 or it % 2 == 1:
+                break
         I = len(Ps)
         arrs, ls = list(Ps), list(range(I))
-        twins = [(a, b) for a in range(I) for b in range(a + 1, I) if Ps[a].shape == Ps[b].shape]
-        if twins and it % 2 == 0:
-            a, b = rng.choice(twins); ls[b] = a
+        if I >= 2 and it % 2 == 0:                     # one projection array serves two slices
+            a, b = sorted(rng.sample(range(I), 2)); ls[b] = a
         held = [np.array(a_, copy=True) for a_ in arrs]
         plist = [held[l] for l in ls]
         Ls = [None if rng.random() < 0.4 else sperm_(rng, plist[k].shape[0]) for k in range(I)]
